@@ -9,7 +9,7 @@ BUDGET = 3000
 
 def _run(exe, args, text):
     p = subprocess.run("ulimit -s unlimited 2>/dev/null; exec %s %s" % (exe, args), shell=True, input=text, stdout=subprocess.PIPE,
-                       stderr=subprocess.PIPE, text=True, errors="replace", timeout=3600)
+                       stderr=subprocess.PIPE, text=True, errors="replace", timeout=900)
     return p.returncode, p.stdout, p.stderr
 
 
